@@ -292,15 +292,15 @@ cmp_vk!(EagerVec<BytesVec<usize, u32>>, u32, false);
 cmp_vk!(EagerVec<PcoVec<usize, u32>>, u32, true);
 
 #[derive(Clone, Debug, PartialEq)]
-struct Obs {
-    len: usize,
-    view: Vec<u64>, // 0 = none
-    holes: Vec<usize>,
-    stamp: u64,
-    bad_block: Option<String>,
+pub struct Obs {
+    pub len: usize,
+    pub view: Vec<u64>, // 0 = none
+    pub holes: Vec<usize>,
+    pub stamp: u64,
+    pub bad_block: Option<String>,
 }
 
-fn obs_to_json(o: &Obs) -> Value {
+pub fn obs_to_json(o: &Obs) -> Value {
     json!({"len": o.len, "view": o.view, "holes": o.holes, "stamp": o.stamp, "bad_block": o.bad_block})
 }
 
@@ -315,7 +315,7 @@ fn parse_obs(v: &Value) -> Obs {
 }
 
 /// Observe the real vector and fold blocks of `b` real elements back into model elements.
-fn observe<V: VK>(vec: &V, b: usize) -> Obs {
+pub fn observe<V: VK>(vec: &V, b: usize) -> Obs {
     let len = vec.vlen();
     let view = vec.view();
     let holes = vec.holes();
